@@ -167,4 +167,59 @@ theorem gen_taintLoop_count_eq_dry (o : Oracle) (nowSec : Int) (effect : String)
   rw [taintLoop_dry_count, C06_source_taint_exact need true outcomes 0 (by omega) (fun _ _ => Or.inl rfl), hlen]
   omega
 
+/-- Per-candidate facts of the untaint loop in dry mode: (—, —, the tracker holds the node's name), the tracker threaded as the
+    model threads it (a hit removes the first occurrence of the name). -/
+def untaintOutcomesDry : List String → List Node → List (Bool × Bool × Bool)
+  | _, [] => []
+  | tr, c :: cs =>
+    if tr.contains c.name then (false, false, true) :: untaintOutcomesDry (removeFirst c.name tr) cs
+    else (false, false, false) :: untaintOutcomesDry tr cs
+
+/-- **Tie B, the loop of `untaintNewestN` in dry mode (count).** The model's dry `untaintLoop` hands back exactly as many nodes
+    as the translated loop run with `dry = true` on the tracker facts of the model's own run. -/
+theorem gen_untaintLoop_count_eq_dry (o : Oracle) (cs : List Node) :
+    ∀ (k need : Nat) (count0 : Int) (tr : List String),
+      ((untaintLoop o true k cs need tr).val.count : Int) =
+        runLoop (fun c e => Gen.untaintStep c (count0 + need) true e.1 e.2.1 e.2.2) count0 (untaintOutcomesDry tr cs) - count0 := by
+  induction cs with
+  | nil => intro k need count0 tr; simp [untaintLoop, untaintOutcomesDry, runLoop]
+  | cons c cs ih =>
+    intro k need count0 tr
+    by_cases hn : need = 0
+    · have hstop : ∀ a b d, (Gen.untaintStep count0 (count0 + need) true a b d).1 = true := by
+        intro a b d; exact (untaintStep_spec count0 (count0 + need) true a b d).1.mpr (by omega)
+      rw [hn] at hstop
+      by_cases he : tr.contains c.name = true
+      · simp only [untaintLoop, hn, if_true, untaintOutcomesDry, he, runLoop]
+        rw [if_pos (hstop _ _ _)]; simp
+      · have he' : tr.contains c.name = false := by simpa using he
+        simp only [untaintLoop, hn, if_true, untaintOutcomesDry, he', Bool.false_eq_true, if_false, runLoop]
+        rw [if_pos (hstop _ _ _)]; simp
+    · have hpos : ¬ count0 ≥ count0 + (need : Int) := by omega
+      have hgo : ∀ a b d, (Gen.untaintStep count0 (count0 + need) true a b d).1 = false := by
+        intro a b d
+        cases h : (Gen.untaintStep count0 (count0 + need) true a b d).1
+        · rfl
+        · exact absurd ((untaintStep_spec count0 (count0 + need) true a b d).1.mp h) hpos
+      by_cases he : tr.contains c.name = true
+      · have sp := untaintStep_spec count0 (count0 + need) true false false true
+        have hc := sp.2.2.1 (hgo _ _ _)
+        simp only [untaintLoop, hn, if_false, if_true, he, untaintOutcomesDry, runLoop, hgo, Bool.false_eq_true]
+        simp only [Bool.not_true, Bool.false_and, Bool.and_true, Bool.or_true, Bool.true_and, Bool.false_or, if_true] at hc
+        have := ih k (need - 1) (count0 + 1) (removeFirst c.name tr)
+        have hcast : ((need - 1 : Nat) : Int) = (need : Int) - 1 := by omega
+        rw [hcast] at this
+        have hn' : count0 + 1 + ((need : Int) - 1) = count0 + need := by omega
+        rw [hn'] at this
+        rw [hc]
+        omega
+      · have he' : tr.contains c.name = false := by simpa using he
+        have sp := untaintStep_spec count0 (count0 + need) true false false false
+        have hc := sp.2.2.1 (hgo _ _ _)
+        simp only [untaintLoop, hn, if_false, if_true, he', untaintOutcomesDry, runLoop, hgo, Bool.false_eq_true]
+        simp only [Bool.not_true, Bool.false_and, Bool.and_false, Bool.or_false, Bool.false_eq_true, if_false] at hc
+        have := ih k need count0 tr
+        rw [hc, Int.add_zero]
+        omega
+
 end Esc.P
